@@ -20,7 +20,8 @@ Inductive hop :=
 | OObs | ORead (k : Z) | OReadAll | OGetHdr
 | OSet (k v : Z) | OStatus (c : Z) | OWrite (bs : list Z)
 | OEcho                 (* read everything, write it back *)
-| OEchoHdr (k : Z).     (* copy request header k into response header k when present *)
+| OEchoHdr (k : Z)      (* copy request header k into response header k when present *)
+| OBarrier.             (* overlapping requests: wait until all of them are inside their handlers; nothing to the model *)
 
 Fixpoint compile (ops : list hop) : hprog :=
   match ops with
@@ -33,6 +34,7 @@ Fixpoint compile (ops : list hop) : hprog :=
   | OStatus c :: t => HStatus c (compile t)
   | OWrite bs :: t => HWrite bs (compile t)
   | OEcho :: t => HReadAll (fun b => HWrite b (compile t))
+  | OBarrier :: t => compile t
   | OEchoHdr k :: t =>
       HObsReq (fun _ _ h => match get k h with Some v => HSetHdr k v (compile t) | None => compile t end)
   end.
@@ -63,6 +65,12 @@ Inductive case :=
         (rm rp : Z) (rh : list (Z * Z)) (rb : list Z)   (* request: method, path, X-V headers (sorted), body *)
         (st : Z) (oh : list (Z * Z)) (ob : list Z)      (* client: status, X-V headers (sorted), body *)
         (ev : list (list Z))                            (* recorder and logger events, in order *)
+(* one of several OVERLAPPING exchanges (all handlers were entered before any of them read its body); [ev] holds
+   this request's recorder events only, the logger's lines cannot be attributed to a request and are left out.
+   The property is per request whatever the interleaving, so the expectation is that of the exchange alone. *)
+| CHttpConc (listener : Z) (calls : list (Z * Z * list hop)) (mw : option (list mwc)) (direct : bool)
+        (rm rp : Z) (rh : list (Z * Z)) (rb : list Z)
+        (st : Z) (oh : list (Z * Z)) (ob : list Z) (ev : list (list Z))
 (* the same exchange after a configuration SEQUENCE: AddRoute / SetMiddleware calls with read accessors
    (GetRoutes, GetMiddleware, ...) called in between, before the server was built *)
 | CHttpSeq (listener : Z) (ops : list cop)
@@ -139,7 +147,7 @@ Definition rec_ids (l : list mwc) : list Z :=
   flat_map (fun m => match m with MRec i => [i] | _ => [] end) l.
 
 (* [full] = the exchange as the complete model predicts it *)
-Definition verdict_http (listener : Z) (calls : list (Z * Z * list hop)) (mw : option (list mwc)) (direct : bool)
+Definition verdict_http (conc : bool) (listener : Z) (calls : list (Z * Z * list hop)) (mw : option (list mwc)) (direct : bool)
            (full : reqst -> world) (rm rp : Z) (rh : list (Z * Z)) (rb : list Z)
            (st : Z) (oh : list (Z * Z)) (ob : list Z) (ev : list (list Z)) : nat :=
       let q := {| q_method := rm; q_path := rp; q_hdr := rh; q_body := rb |} in
@@ -171,7 +179,9 @@ Definition verdict_http (listener : Z) (calls : list (Z * Z * list hop)) (mw : o
       else
         let full := full q in
         if served then
-          if client_eqb rm full st oh ob && zzlist_eqb ev (map enc (w_log full)) then 0%nat else 2%nat
+          if client_eqb rm full st oh ob &&
+             (if conc then zzlist_eqb ev (map enc (visible_log full)) else zzlist_eqb ev (map enc (w_log full)))
+          then 0%nat else 2%nat
         else if Z.eqb (status_of full) st then 0%nat else 2%nat.
 
 (* configuration sequences: what the property reads off them, and the model's configuration phase *)
@@ -198,10 +208,12 @@ Definition exchange_seq (listener : Z) (ops : list cop) (q : reqst) : world :=
 Definition verdict (c : case) : nat :=
   match c with
   | CHttp listener calls mw direct rm rp rh rb st oh ob ev =>
-      verdict_http listener calls mw direct (exchange listener calls (mw_of mw direct)) rm rp rh rb st oh ob ev
+      verdict_http false listener calls mw direct (exchange listener calls (mw_of mw direct)) rm rp rh rb st oh ob ev
+  | CHttpConc listener calls mw direct rm rp rh rb st oh ob ev =>
+      verdict_http true listener calls mw direct (exchange listener calls (mw_of mw direct)) rm rp rh rb st oh ob ev
   | CHttpSeq listener ops rm rp rh rb st oh ob ev =>
       let mwd := last_mw ops in
-      verdict_http listener (adds_c ops) (option_map fst mwd) (match mwd with Some (_, d) => d | None => false end)
+      verdict_http false listener (adds_c ops) (option_map fst mwd) (match mwd with Some (_, d) => d | None => false end)
                    (exchange_seq listener ops) rm rp rh rb st oh ob ev
   | CGrpc regs d res =>
       let spec := match (fix last (l : list (Z * Z)) (acc : Z) : Z :=
@@ -238,6 +250,11 @@ Example corr_selftest :
   (* the middleware set last is the one applied *)
   /\ verdict (CHttpSeq 0 [KSetMw [MRec 9] false; KAdd 0 0 [OWrite [1]]; KGetMw; KSetMw [MRec 1; MLogReq] false] 0 0 [] [] 200 [] [1]
                        [[0; 1]; [5; 0; 0]; [7; 0]; [1; 1]]) = 0%nat
+  (* overlapping requests: own bytes echoed = fine; another request's bytes = the monitor rejects *)
+  /\ verdict (CHttpConc 0 [(2, 1, [OBarrier; OEcho])] (Some [MLogReq]) false 2 1 [] [11; 11; 11] 200 [] [11; 11; 11]
+                        [[7; 0]; [3; 11; 11; 11]]) = 0%nat
+  /\ verdict (CHttpConc 0 [(2, 1, [OBarrier; OEcho])] (Some [MLogReq]) false 2 1 [] [11; 11; 11] 200 [] [12; 12; 12]
+                        [[7; 0]; [3; 12; 12; 12]]) = 1%nat
   /\ verdict (CGrpc [(1, 10); (2, 20); (1, 11)] 1 11) = 0%nat
   /\ verdict (CGrpc [(1, 10)] 3 (-1)) = 0%nat
   /\ verdict (CGrpc [(1, 10)] 1 (-1)) = 1%nat.
